@@ -7,6 +7,7 @@ import random
 from translator import gen_crash
 
 from . import c05_crash as cc
+from . import c05_windows as cw
 from . import common
 from .common import coq_bool, coq_list, coq_str
 
@@ -35,8 +36,13 @@ RULE = ("E3 crash runs on the real director: a project (8 hand-written families:
         "the restart, and the model of the startup sequence (with the GENERATED block structure of rescan_env_vars) "
         "run on the crashed tables and the observed world ends in the tables of the real successor. "
         "quick: the three witnesses (D6, D6b, D13) + 10 seeded points on each of 5 projects + 7 startup cases (one "
-        "per class of evidence) at all their startup points; thorough: every point of 30 projects + 28 startup "
-        "cases. A point is non-trivial when the child was really killed there and the killed transaction wrote "
+        "per class of evidence) at all their startup points + 2 directed cleanup cases (every end-of-build "
+        "transaction before/after and every removal of remove_deletable_files) + 1 watch case (a WATCHING director "
+        "killed in the transactions of its watcher, of start_build_phase and of the rebuild); thorough: every point "
+        "(removals included) of 30 projects + 28 startup cases + 7 watch cases. The distribution of the points over "
+        "the KINDS of transaction (kind:startup / dispatch / job / rpc / hash-job / report / cleanup-revert / "
+        "cleanup-delete / cleanup-removal / build-completed / watch-phase / stage) is printed into the evidence. "
+        "A point is non-trivial when the child was really killed there and the killed transaction wrote "
         "something, a step was RUNNING/CHECKING, a file was UNCONFIRMED, or it is a stage point; distinct by "
         "(project, point)")
 TRUSTED_BASE = [
@@ -65,14 +71,19 @@ ASSUMPTIONS = [
     "the restarted build sees the same sources, plan and environment as the interrupted one",
     "theorems about transaction histories take inv_b / inv_succeeded_b / inv_running_nohash_b of the crashed state "
     "as hypotheses (C09 proves them for reachable states); they are evaluated on every crashed database here",
-    "watch-phase transactions are not interrupted by this check (E3 forks non-watch builds only)",
+    "watch-phase transactions (Watcher.run_once, start_build_phase, the rebuild) are interrupted in a forked "
+    "WatchSession (harness/c05_windows.py) for the families without environment edits; the restart is a plain "
+    "(non-watch) build compared with the uninterrupted plain build; a kill inside remove_deletable_files is "
+    "emulated before each finalize._try_remove call",
     "the startup theorems take a world (environment, disk, glob scans) that does not change during startup and "
     "unique step / file labels (a conjunct of C09's invariant, evaluated on every crashed database); hash jobs of "
     "rescan_files are applied in row order (E3 runs njob=1); Workflow.initialize_boot re-initialising the boot step "
     "on a non-empty database is outside the model",
-    "C05_full is proved on the static-DAG fragment of C01's engine only (no plan steps during the build, amends, "
-    "optional steps, cleanup, failing steps); the engine-level crash states are connected to the database level by "
-    "C05_started_then_crash and by the oracle, not by a refinement proof",
+    "C05_full is proved on C01's engine: static DAG, and amended inputs with deferral + failing steps for the ungated "
+    "dispatch rule; for the gating of the code only the invariant and a conditional equality are proved (D28); no "
+    "plan steps during the build, optional steps, cleanup; the engine-level crash states are connected to the "
+    "database level by C05_started_then_crash / C05_interrupted_invariant_all_histories and by the oracle, not by "
+    "a refinement proof",
 ]
 
 KIND = {"root": "KRoot", "file": "KFile", "step": "KStep", "st": "KTree"}
@@ -178,6 +189,10 @@ def _jobs(ctx):
                          "startup": True, "startup_both": True})
             jobs.append({"case": cc.make_case("st-" + kind, ctx.seed * 2 + 1), "sample": 0, "seed": ctx.seed,
                          "startup": True, "startup_both": True})
+        # watch phase: the last phase of every family happens under a watching director, every
+        # commit point from the end of its first build phase on
+        for n in cc.WATCH_FAMILIES:
+            jobs.append({"case": cc.make_case(n, ctx.seed * 4 + 1), "watch": True, "seed": ctx.seed})
     else:
         picks = [(n, rng.randrange(1000)) for n in rng.sample(names, 4)] + [("gen", rng.randrange(1000))]
         jobs += [{"case": cc.make_case(n, s), "sample": 10, "seed": ctx.seed} for n, s in picks]
@@ -193,6 +208,15 @@ def _jobs(ctx):
             used.add(kind)
             jobs.append({"case": cc.make_case("st-" + kind, rng.randrange(1000)), "sample": 2, "seed": ctx.seed,
                          "startup": True})
+        # directed: the end-of-build transactions (report, revert_optional_steps, delete_detached,
+        # build_completed) before and after, and every removal of remove_deletable_files, on one
+        # project that reverts optional steps and one that drops steps (incremental builds)
+        for n in ("optional", rng.choice(["drop", "subplan"])):
+            jobs.append({"case": cc.make_case(n, 4 * rng.randrange(250) + rng.randrange(3)), "points": "cleanup"})
+        # directed: a watching director killed in the transactions of its watcher, of
+        # start_build_phase and of the rebuild
+        jobs.append({"case": cc.make_case(rng.choice(cc.WATCH_FAMILIES), 4 * rng.randrange(250) + rng.randrange(3)),
+                     "watch": True, "sample": 8, "seed": ctx.seed})
     return jobs
 
 
@@ -293,6 +317,14 @@ def correspondence(ctx):
 def oracle(ctx):
     results = _run(ctx)
     reported: dict = {}
+    # which KINDS of transaction the crash points of this run hit (0 = never: no directed family)
+    for kind in cw.KINDS:
+        ctx.count("kind:" + kind, 0)
+    for res in results:
+        if res.get("watch") and res["ref"].get("watch_points") is None:
+            ctx.add_failure("oracle", "watch-reference", "C05:watch-reference-run-failed",
+                            f"the uninterrupted watch session of {res['case']['name']}/{res['case']['seed']} did not "
+                            f"complete: {res['ref'].get('watch_error')}", witness={"case": res["case"], "watch": True})
     for case, ref, pr in _points(results):
         if ref["error"] is not None:
             ctx.add_failure("oracle", "reference-build", "C05:reference-build-raised",
@@ -308,7 +340,9 @@ def oracle(ctx):
             ctx.count("point_not_reached")
             continue
         ctx.count("window:" + cc._window(info))
-        ctx.count("family:" + case["name"])
+        ctx.count("family:" + case["name"] + ("(watch)" if info.get("watch") else ""))
+        ctx.count("kind:" + cw.site_kind(info, info["kind"] == "commit" and not info.get("watch")
+                                         and info["k"] <= ref["startup_commits"]))
         if db.get("running"):
             ctx.count("crash_with_RUNNING_step")
         if db.get("checking"):
@@ -336,6 +370,8 @@ def _deep(ctx):
     jobs = [{"case": cc.make_case(rng.choice(names), rng.randrange(10000))} for _ in range(6)]
     jobs += [{"case": cc.make_case("st-" + kind, rng.randrange(10000)), "sample": 0, "startup": True,
               "startup_both": True} for kind in cc.STARTUP_KINDS]
+    jobs += [{"case": cc.make_case(n, 4 * rng.randrange(250)), "points": "cleanup"} for n in ("optional", "drop", "subplan")]
+    jobs += [{"case": cc.make_case(n, 4 * rng.randrange(250)), "watch": True} for n in ("optional", "amend", "chain")]
     return e3.pool_map(cc.run_job, jobs, nproc=6)
 
 
@@ -349,7 +385,10 @@ def search(ctx):
 def replay(ctx, obj):
     w = (obj.get("failure") or {}).get("witness") or obj.get("witness") or {}
     if "case" in w and "point" in w:
-        ctx.c05_results = [cc.run_job({"case": w["case"], "points": [w["point"]]})]
+        ctx.c05_results = [cc.run_job({"case": w["case"], "points": [w["point"]],
+                                       "watch": bool(w["point"].get("watch"))})]
+    elif "case" in w and w.get("watch"):
+        ctx.c05_results = [cc.run_job({"case": w["case"], "watch": True})]
     elif "case" in w:
         ctx.c05_results = [cc.run_job({"case": w["case"]})]
     correspondence(ctx)
